@@ -35,6 +35,7 @@ from explorerscript.ssb_converting.ssb_data_types import SsbOperation
 from explorerscript.ssb_converting.ssb_special_ops import (
     OP_MESSAGE_SWITCH_TALK,
     OP_MESSAGE_SWITCH_MONOLOGUE,
+    OP_DEFAULT_TEXT,
     OPS_SWITCH_TEXT_CASE_MAP,
 )
 from explorerscript.ssb_converting.util import Blk
@@ -48,6 +49,7 @@ class MesageSwitchSimpleOpWriteHandler(AbstractWriteHandler):
 
     op_name: str | None
     have_written_at_least_one_child: bool
+    have_written_default: bool
 
     def __init__(
         self, start_vertex: Vertex, decompiler: ExplorerScriptSsbDecompiler, parent: AbstractWriteHandler | None
@@ -55,6 +57,7 @@ class MesageSwitchSimpleOpWriteHandler(AbstractWriteHandler):
         super().__init__(start_vertex, decompiler, parent)
         self.op_name = None
         self.have_written_at_least_one_child = False
+        self.have_written_default = False
 
     def write_content(self) -> Vertex | None:
         op: SsbOperation = self.start_vertex["op"]
@@ -98,5 +101,9 @@ class MesageSwitchSimpleOpWriteHandler(AbstractWriteHandler):
             if not self.have_written_at_least_one_child:
                 raise ValueError("A message_Switch* must have at least one case or default.")
             return False
+        if next_op.op_code.name == OP_DEFAULT_TEXT:
+            if self.have_written_default:
+                raise ValueError("A message_Switch* can only have a single default.")
+            self.have_written_default = True
         self.have_written_at_least_one_child = True
         return True
